@@ -50,7 +50,7 @@ func LawShapes(thorough bool) []*Shape {
 		out = append(out, Generics(a)...)
 		out = append(out, Mixed(a)...)
 	}
-	out = append(out, UserDefined()...)
+	out = append(out, UserDefined(AnnVJL)...)
 	out = append(out, Collide(thorough)...)
 	out = append(out, Combos()...)
 	out = append(out, Names(AnnVJL)...)
@@ -83,7 +83,9 @@ func JSONShapes(thorough bool) []*Shape {
 	}
 	out = append(out, OneFieldTags(AnnVJ, []tagVariant{tagJSON, tagJSONOE, tagJSONNoN, tagJSONDsh, tagFP, tagOther, tagTwo})...)
 	out = append(out, Grouped(AnnVJ)...)
+	out = append(out, UserDefined(AnnVJ)...)
 	if thorough {
+		out = append(out, UserDefined(AnnVJL)...)
 		for n := 3; n <= 20; n++ {
 			out = append(out, FieldCount(AnnVJ, n))
 		}
